@@ -95,7 +95,7 @@ def generate(R, tier):
             "mo": R.random() < 0.3, "exact": R.random() < 0.6, "seed": R.randrange(1 << 31), "entropy_world": R.randrange(1000),
             "rng": {"kind": R.choice(["Generator", "RandomState"]), "seed": R.randrange(1 << 30),
                     "script": ([] if R.random() < 0.6 else [{"method": "shuffle", "mode": R.choice(["identity", "reverse", "rotate"])}])},
-            "perm": R.randrange(1 << 30), "ngen": R.randint(1, 3), "pop": R.choice([6, 8])}
+            "perm": R.randrange(1 << 30), "ngen": R.randint(1, 3), "pop": R.choice([6, 8]), "unique_parents": R.random() < 0.7}
 
 
 def shrink(sc):
@@ -143,9 +143,9 @@ def _protocol(sc, g, ntr):
     if fam == "ocs":
         kw["cmatfcty"] = DenseMolecularCoancestryMatrixFactory()
     if fam == "ohv":
-        kw.update(nhaploblk=2, unique_parents=True)
+        kw.update(nhaploblk=2, unique_parents=sc.get("unique_parents", True))
     if fam == "uc":
-        kw.update(nself=0, upper_percentile=0.1, vmatfcty=DenseTwoWayDHAdditiveGeneticVarianceMatrixFactory(), gmapfn=HaldaneMapFunction(), unique_parents=True)
+        kw.update(nself=0, upper_percentile=0.1, vmatfcty=DenseTwoWayDHAdditiveGeneticVarianceMatrixFactory(), gmapfn=HaldaneMapFunction(), unique_parents=sc.get("unique_parents", True))
     nlat = ntr + 1 if fam == "ocs" else ntr
     if sc["mo"] and nlat >= 2:
         kw.update(nobj=nlat, obj_wt=numpy.ones(nlat), ndset_wt=1.0, ndset_trans=_ndset, moalgo=MO[enc](ngen=sc["ngen"], pop_size=sc["pop"]))
@@ -213,11 +213,22 @@ def execute(sc):
         if not set(rows) <= allowed:
             V.append(viol("xconfig-members", CC, "outside-solution", "crosses %s not among the candidate crosses chosen by the solution %s" % (sorted(set(rows) - allowed), sorted(allowed))))
             return _out(sc, V, log, faults, probes, True, g)
-        if fam in ("ohv", "uc") and any(len(set(r)) != len(r) for r in rows):
+        up = sc.get("unique_parents", True)
+        if not up:
+            faults["self_crosses_allowed"] = 1
+        # every candidate cross of the map must be selectable: the decision space of the solved problem covers the map
+        for key_ in ("sosoln", "mosoln"):
+            sol = misc.get(key_)
+            if sol is not None and enc == "subset":
+                ds = numpy.asarray(sol.decn_space)
+                if ds.ndim == 1 and set(ds.tolist()) != set(range(len(xmap))):
+                    V.append(viol("candidates-selectable", C, "decision-space-vs-cross-map", "the cross map holds %d candidate crosses but the decision space offered to the optimiser has %d entries (unique_parents=%s)" % (len(xmap), len(ds), up)))
+                    return _out(sc, V, log, faults, probes, True, g)
+        if fam in ("ohv", "uc") and up and any(len(set(r)) != len(r) for r in rows):
             bad = [r for r in rows if len(set(r)) != len(r)][0]
             V.append(viol("unique-parents-respected", C, "self-pairing", "unique_parents=True but cross %s pairs an individual with itself (crosses %s)" % (list(bad), xc.tolist())))
             return _out(sc, V, log, faults, probes, True, g)
-        if fam in ("ohv", "uc"):
+        if fam in ("ohv", "uc") and up:
             allc = [tuple(sorted(r)) for r in numpy.asarray(cfg.xconfig_xmap).tolist()]
             if len(set(allc)) != len(allc):
                 V.append(viol("unique-parents-respected", C, "duplicate-candidate-cross", "the candidate cross map lists the same set of parents more than once (%d candidates, %d distinct)" % (len(allc), len(set(allc)))))
@@ -314,5 +325,5 @@ def execute(sc):
 
 
 def _out(sc, V, log, faults, probes, ran, g):
-    trace = "%s|%s|mo=%s|exact=%s|x%d|%s" % (sc["fam"], sc["enc"], sc["mo"], sc["exact"], sc["ncross"], [r["mode"] for r in sc["rng"]["script"]])
+    trace = "%s|%s|mo=%s|exact=%s|x%d|p%d|u%d|%s" % (sc["fam"], sc["enc"], sc["mo"], sc["exact"], sc["ncross"], sc["nparent"], int(sc.get("unique_parents", True)), [r["mode"] for r in sc["rng"]["script"]])
     return {"violations": V, "log": log, "trace": trace, "nontrivial": ran, "faults": faults, "probes": probes, "sim": {"selections": 1 if ran else 0}}
